@@ -110,6 +110,43 @@ ProductOK_ == ~Directed => \A h \in Graphs(3) :
      /\ Size(P("Strong")) = n1 * m2 + n2 * m1 + 2 * m1 * m2
      /\ P("Strong") = P("Cartesian") \cup P("Tensor")
      /\ \A k \in ProductKinds : \A pq \in P(k) : <<pq[2], pq[1]>> \in P(k)
+\* The products over ARCS (directed inputs; an undirected input is a symmetric arc set and is among them): every
+\* product formula against a second formulation - documented sizes counted in arcs, Tensor / Modular / CoNormal as
+\* "tensor" combinations T(X, Y) of arc and non-arc relations, ModularExt against Modular, behaviour under reversal
+\* of both inputs, and what the two kinds of destination hold.  Second inputs: every digraph on <= 2 nodes and the
+\* 3-node digraphs with at most 1 arc or all 6 (14 graphs; ProductArcOKFull: at most 2 arcs or at least 5, 50 graphs),
+\* against every digraph g on <= N nodes.
+NonArcs(Vx, Ex) == {p \in Vx \X Vx : p[1] # p[2] /\ p \notin Ex}
+RevArcs(X) == {<<e[2], e[1]>> : e \in X}
+SecondInputs(lo, hi) == UNION {{[V |-> 1 .. n, E |-> D] : D \in SUBSET DirPairs(n)} : n \in 0 .. 2}
+                \cup {[V |-> 1 .. 3, E |-> D] : D \in {X \in SUBSET DirPairs(3) : Cardinality(X) <= lo \/ Cardinality(X) >= hi}}
+ConstW(Ex, w) == [e \in Ex |-> w]
+ParityW(Ex, k) == [e \in Ex |-> ((e[1] + k * e[2]) % 2) + 1]
+ProductArcOn(H) == Directed => \A h \in H :
+     LET n1 == Cardinality(V) m1 == Cardinality(E) n2 == Cardinality(h.V) m2 == Cardinality(h.E)
+         NN == (V \X h.V) \X (V \X h.V)
+         P(k) == ProductArcs(k, V, E, h.V, h.E)
+         T(X, Y) == {pq \in NN : <<pq[1][1], pq[2][1]>> \in X /\ <<pq[1][2], pq[2][2]>> \in Y}
+         c1 == NonArcs(V, E)  c2 == NonArcs(h.V, h.E)
+         Ext(ag, Wa, Wb) == ModularExtArcs(ag, V, E, Wa, h.V, h.E, Wb)
+         Wp == ParityW(E, 1)  Wq == ParityW(h.E, 2)
+         M == P("Modular")
+     IN /\ Cardinality(P("Cartesian")) = m2 * n1 + m1 * n2
+        /\ P("Tensor") = T(E, h.E) /\ Cardinality(P("Tensor")) = m1 * m2
+        /\ Cardinality(P("Lexicographical")) = m2 * n1 + m1 * n2 * n2
+        /\ P("Strong") = P("Cartesian") \cup P("Tensor") /\ P("Cartesian") \cap P("Tensor") = {}
+        /\ Cardinality(P("CoNormal")) = n1 * n1 * n2 * n2 - (n1 * n1 - m1) * (n2 * n2 - m2)
+        /\ M = T(E, h.E) \cup T(c1, c2)
+        /\ Ext("true", Wp, Wq) = M /\ Ext("nil", Wp, Wq) = M /\ Ext("false", Wp, Wq) = T(c1, c2)
+        /\ Ext("weq", ConstW(E, 1), ConstW(h.E, 1)) = M /\ Ext("weq", ConstW(E, 1), ConstW(h.E, 2)) = T(c1, c2)
+        /\ Ext("weq", Wp, Wq) = T(c1, c2) \cup {pq \in T(E, h.E) : Wp[<<pq[1][1], pq[2][1]>>] = Wq[<<pq[1][2], pq[2][2]>>]}
+        /\ \A k \in ProductKinds :
+              /\ ProductArcs(k, V, RevArcs(E), h.V, RevArcs(h.E)) = RevArcs(P(k))
+              /\ \A pq \in P(k) : pq[1] # pq[2] /\ pq \in NN                           \* no self loops, product nodes only
+              /\ DstHolds(TRUE, P(k)) = P(k)
+              /\ Sym(DstHolds(FALSE, P(k))) = Sym(P(k))
+              /\ \A pq \in DstHolds(FALSE, P(k)) : <<pq[2], pq[1]>> \notin DstHolds(FALSE, P(k))
+              /\ (Sym(E) = E /\ Sym(h.E) = h.E) => (Sym(P(k)) = P(k) /\ 2 * Cardinality(DstHolds(FALSE, P(k))) = Cardinality(P(k)))
 ReachOK == Done => ReachOK_
 SccOK == Done => SccOK_
 BfsOK == Done => BfsOK_
@@ -130,4 +167,6 @@ BasisOK == Done => BasisOK_
 MsfOK == Done => MsfOK_
 KccOK == Done => KccOK_
 ProductOK == Done => ProductOK_
+ProductArcOK == Done => ProductArcOn(SecondInputs(1, 6))
+ProductArcOKFull == Done => ProductArcOn(SecondInputs(2, 5))
 =============================================================================
